@@ -1745,3 +1745,17 @@ package yqlib
 //@   noframe
 //@   nopre
 //@   requires o != nil && len(data) > 0
+
+// operator_sort.go: sort_by compares two elements by their key lists position by position with `compare`; the
+// first position that differs decides, and only a strictly smaller key makes an element "less" (so equal
+// elements are never swapped by the stable sort); when one list is a prefix of the other the shorter is less (C15)
+//@ func (sortableNodeArray).Less
+//@   props C15
+//@   nosafety
+//@   nopre
+//@   noframe
+//@   at compare: assert @keys-are-compared-position-by-position {C15} calls(compare) == iter() && arg1 == nodeAt(lhsContext.MatchingNodes, iter()) && arg2 == nodeAt(rhsContext.MatchingNodes, iter()) && arg3 == a[i].dateTimeLayout
+//@   at return: assert @the-first-difference-decides-and-only-smaller-is-less {C15} implies(calls(compare) > 0 && resultOf(compare) != 0, iff(result0, resultOf(compare) < 0)) && implies(calls(compare) == 0 || resultOf(compare) == 0, iff(result0, len(lhsContext.MatchingNodes) < len(rhsContext.MatchingNodes)))
+//@   loop 1:
+//@     invariant @all-earlier-positions-were-equal {C15} calls(compare) == iter() && (calls(compare) == 0 || resultOf(compare) == 0)
+//@     invariant @both-cursors-stand-at-the-same-position {C15} (lhsEl == nil || (elList(lhsEl) == lhsContext.MatchingNodes && elIdx(lhsEl) == iter())) && (rhsEl == nil || (elList(rhsEl) == rhsContext.MatchingNodes && elIdx(rhsEl) == iter()))
